@@ -10,7 +10,7 @@ from . import joseops as J
 from . import refimpl as R
 from . import keys as K
 
-KINDS = {"oct": ["oct128", "oct256", "oct64", "oct800"], "RSA": ["RSA2048", "RSA1024", "RSA3072"],
+KINDS = {"oct": ["oct128", "oct256", "oct64", "oct800"], "RSA": ["RSA2048", "RSA1024", "RSA3072", "RSA1024crt0", "RSA2050"],
          "EC": ["EC:P-256", "EC:P-384", "EC:P-521", "EC:secp256k1", "EC0:P-256", "EC0:P-384", "EC0:P-521", "EC0:secp256k1"],
          "OKP": ["OKP:Ed25519", "OKP:Ed448", "OKP:X25519", "OKP:X448"]}
 PRIVATE_MEMBERS = {"oct": ["k"], "RSA": ["d", "p", "q", "dp", "dq", "qi"], "EC": ["d"], "OKP": ["d"]}
@@ -50,7 +50,7 @@ def load(jwk: dict, origin: str, priv: bool, kid, extras: bool, stray: bool = Fa
     from joserfc.jwk import JWKRegistry
     from cryptography.hazmat.primitives import serialization as S
     params = {}
-    if kid:
+    if kid is not None:
         params["kid"] = kid
     if extras:
         params.update(EXTRAS)
@@ -62,6 +62,9 @@ def load(jwk: dict, origin: str, priv: bool, kid, extras: bool, stray: bool = Fa
         else:
             params.update(sm)                   # private-named members through the parameters argument
     if origin == "jwk":
+        order = len(json.dumps(jwk)) % 3          # the members of a JWK object come in any order: as made / sorted / reversed
+        if order:
+            src = dict(sorted(src.items(), reverse=(order == 2)))
         if stray and jwk["kty"] != "RSA":
             sm = {m: params.pop(m) for m in STRAY[jwk["kty"]]}
             return JWKRegistry.import_key({**src, **params}, parameters=sm)
@@ -75,16 +78,17 @@ def load(jwk: dict, origin: str, priv: bool, kid, extras: bool, stray: bool = Fa
     raise ValueError(origin)
 
 
-def generate(kind: str, priv: bool, kid, extras: bool):
+def generate(kind: str, priv: bool, kid, extras: bool, auto_kid: bool = False):
     from joserfc.jwk import JWKRegistry
     kty, _, arg = kind.partition(":")
     if kty.startswith("oct"): kty, arg = "oct", int(kind[3:])
     elif kty.startswith("RSA"): kty, arg = "RSA", int(kind[3:])
     elif kty.startswith("EC0"): kty = "EC"
     params = {}
-    if kid: params["kid"] = kid
+    if kid is not None: params["kid"] = kid
     if extras: params.update(EXTRAS)
-    return JWKRegistry.generate_key(kty, arg, params or None, priv)
+    # auto_kid asks for a thumbprint kid when none is given; a kid that is given stays whatever the flag says
+    return JWKRegistry.generate_key(kty, arg, params or None, priv, auto_kid=(kid is not None and auto_kid))
 
 
 def native_jwk(key, private: bool) -> dict:
@@ -104,10 +108,13 @@ def replay(case, kind: str, seed: int):
     kty = case["kty"]
     F = []
     h0 = case["hist"][0]["before"]
-    kidv = "given-kid-1" if h0["kid"] == "given" else None
+    # a given kid is any string, the empty one included (a third of the replays)
+    kidv = ("" if rnd.randrange(3) == 0 else "given-kid-1") if h0["kid"] == "given" else None
     try:
         if h0["origin"] == "generated":
-            key = generate(kind, h0["priv"], kidv, h0["extras"])
+            if kind in ("RSA2050", "RSA2047", "RSA1024crt0"):
+                kind = "RSA1024"              # (pool-only keys: joserfc generates RSA keys in whole octets, and a short CRT member is luck)
+            key = generate(kind, h0["priv"], kidv, h0["extras"], rnd.randrange(2) == 0)
             material = native_jwk(key, h0["priv"])
             if not h0["priv"]:
                 material = dict(material)
@@ -206,17 +213,18 @@ def replay(case, kind: str, seed: int):
             elif op[0] == "ensure_kid":
                 key.ensure_kid(); key.ensure_kid()
             elif op[0] == "as_dict_public":
-                d = key.as_dict(private=False)
-                if any(m in d for m in PRIVATE_MEMBERS[kty]) or (needles and scan(d, needles)):
-                    F.append(("C12", "public-jwk-contains-private", f"{where}: {sorted(set(d) & set(PRIVATE_MEMBERS[kty]))}"))
+                # the public export, plain and with extra members asked for in the same call
+                for d in (key.as_dict(private=False), key.as_dict(private=False, use="sig", purpose="published")):
+                    if any(m in d for m in PRIVATE_MEMBERS[kty]) or (needles and scan(d, needles)):
+                        F.append(("C12", "public-jwk-contains-private", f"{where}: {sorted(set(d) & set(PRIVATE_MEMBERS[kty]))}"))
             elif op[0] == "keyset_public":
                 ks = KeySet([key])
-                d = ks.as_dict(private=False)
-                k0 = d["keys"][0]
-                if any(m in k0 for m in PRIVATE_MEMBERS[kty]) or (needles and scan(d, needles)):
-                    F.append(("C12", "public-key-set-contains-private", f"{where}: {sorted(set(k0) & set(PRIVATE_MEMBERS[kty]))}"))
-                if "kid" not in k0:
-                    F.append(("C13", "key-set-member-without-kid", where))
+                for d in (ks.as_dict(private=False), ks.as_dict(private=False, use="sig", purpose="published")):
+                    k0 = d["keys"][0]
+                    if any(m in k0 for m in PRIVATE_MEMBERS[kty]) or (needles and scan(d, needles)):
+                        F.append(("C12", "public-key-set-contains-private", f"{where}: {sorted(set(k0) & set(PRIVATE_MEMBERS[kty]))}"))
+                    if "kid" not in k0:
+                        F.append(("C13", "key-set-member-without-kid", where))
         except Exception as e:  # noqa
             F.append(("C11", f"step-raised:{type(e).__name__}", f"{where}: {str(e)[:100]}"))
             break
@@ -288,7 +296,7 @@ def load_chains(ctx, thorough: bool, rnd: random.Random):
             raise RuntimeError(f"chain export of {kty} is empty or mixed up")
         kinds = KINDS[kty]
         for i, c in enumerate(pick):
-            items.append((len(items), c, kinds[i % len(kinds)] if kty != "RSA" else (kinds[0] if i % 10 else kinds[1 + i % 2])))
+            items.append((len(items), c, kinds[i % len(kinds)] if kty != "RSA" else (kinds[0] if i % 10 else kinds[1 + (i // 10) % (len(kinds) - 1)])))
     return items, total
 
 
